@@ -169,7 +169,9 @@ def _structural(ck: Checker):
     ck.check(len(so) == 1 and norm(so[0].args[0]) == '[OR_NAME]', 'C13.WIRE', m, so[0] if so else fn, 'the miter has exactly one output, the final gate',
              f'`{norm(so[0]) if so else None}`', construct='build_miter: single output')
     from .. import genrules as R
+    ck.hard_on()    # (a dataflow rule, not a shape: generate_* must hand out a circuit allocated in that call)
     R.check_fresh_generated(ck, 'C13.WIRE', [GEN])
+    ck.hard_off()
     ck.floor('C13.WIRE', 6)
     # ARITY of the final gate(s)
     finals = [c for c in calls_in(fn, 'emplace_gate') if norm(c.func.value) == mv and norm(c.args[0]) == 'OR_NAME']
